@@ -70,6 +70,8 @@ Inductive constr :=
 | CLegalHashes (names : list ustring)    (* v21 ExternalReference: hash names must be in the list *)
 | CSocketOptions                         (* v21 SocketExt options check *)
 | CProcessExt                            (* Process: at-least-one with the windows-process-ext fallback *)
+| CSkipBaseCheck                         (* the override does not call super()._check_object_constraints():
+                                            granular-marking selectors are not validated (v20 Indicator) *)
 | COpaque (src : ustring).               (* anything the translator does not understand *)
 
 Inductive family := FSdo | FSro | FSco | FExt | FOther.
@@ -110,6 +112,22 @@ Record world := {
   wtlp20 : list jvalue;     (* the four TLP instances as serialized *)
   wtlp21 : list jvalue
 }.
+
+(* Variant parameters (BUILDING.md, "Defects of the unchanged code"): places where the
+   pinned code deviates from C02; false = the pinned behaviour, true = the repaired one.
+   The harness detects which one the code under test matches, per field.              *)
+Record variant := {
+  vr_hex_z : bool;        (* HexProperty regex ends in \Z (true) or $ (false: also matches before a final newline) *)
+  vr_key_z : bool;        (* dictionary-key regex *)
+  vr_sel_z : bool;        (* SELECTOR_REGEX *)
+  vr_hash_z : bool;       (* the value regexes of stix2/hashes.py *)
+  vr_interop_z : bool;    (* ID_REGEX_interoperability *)
+  vr_uuid_canon : bool    (* _check_uuid insists on the 8-4-4-4-12 text (true) or takes whatever uuid.UUID() takes (false) *)
+}.
+Definition variant_pinned : variant :=
+  {| vr_hex_z := false; vr_key_z := false; vr_sel_z := false; vr_hash_z := false; vr_interop_z := false; vr_uuid_canon := false |}.
+Definition variant_repaired : variant :=
+  {| vr_hex_z := true; vr_key_z := true; vr_sel_z := true; vr_hash_z := true; vr_interop_z := true; vr_uuid_canon := true |}.
 
 Fixpoint find_class (cs : list cls) (id : ustring) : option cls :=
   match cs with
